@@ -1,5 +1,392 @@
-use crate::mc::Eng;
+//! C11 — CommandPID integrates its PID output 0, 1 or 2 times, by command kind.
+use crate::env::*;
+use crate::mc::*;
+use crate::refmodels::*;
 use crate::Ctx;
-pub fn run(_ctx: &Ctx) -> Vec<Eng> {
-    vec![]
+use rrtk::streams::control::*;
+use rrtk::*;
+
+#[derive(Clone, Copy, Debug, PartialEq)]
+pub enum Ev {
+    P(i64, usize), // interval, state index
+    N(i64),
+    Er(i64),
+    Set(usize),    // explicit set(TARGETS[i])
+    Follow(usize), // the followed command getter now returns TARGETS[i]
+}
+pub const STATES: [(f32, f32, f32); 2] = [(1.0, -2.0, 0.5), (-4.0, 3.0, 2.0)];
+pub const TARGETS: [Command; 6] = [
+    Command::Position(3.0),
+    Command::Position(-1.0),
+    Command::Velocity(3.0),
+    Command::Velocity(-1.0),
+    Command::Acceleration(3.0),
+    Command::Acceleration(-1.0),
+];
+pub fn kvals() -> PositionDerivativeDependentPIDKValues {
+    PositionDerivativeDependentPIDKValues::new(PIDKValues::new(2.0, 0.5, 0.25), PIDKValues::new(1.0, 0.25, 0.5), PIDKValues::new(0.5, 1.0, 2.0))
+}
+fn gains(c: Command) -> (f32, f32, f32) {
+    match c {
+        Command::Position(_) => (2.0, 0.5, 0.25),
+        Command::Velocity(_) => (1.0, 0.25, 0.5),
+        Command::Acceleration(_) => (0.5, 1.0, 2.0),
+    }
+}
+fn comp(c: Command, s: (f32, f32, f32)) -> f32 {
+    match c {
+        Command::Position(_) => s.0,
+        Command::Velocity(_) => s.1,
+        Command::Acceleration(_) => s.2,
+    }
+}
+fn show(h: &[Ev]) -> String {
+    h.iter()
+        .map(|e| match e {
+            Ev::P(d, i) => format!("P(+{}ns,state{})", d, i),
+            Ev::N(_) => "N".to_string(),
+            Ev::Er(_) => "E1".to_string(),
+            Ev::Set(i) => format!("set({:?})", TARGETS[*i]),
+            Ev::Follow(i) => format!("followed:={:?}", TARGETS[*i]),
+        })
+        .collect::<Vec<_>>()
+        .join(",")
+}
+
+#[derive(Clone, Copy)]
+struct Rec {
+    t: i64,
+    u: Tr,
+    e: Tr,
+    u1: Option<(Tr, Tr, Option<Tr>)>, // (integral of u, integral of e, double integral of u)
+}
+/// what get() must return
+#[derive(Clone, Copy)]
+enum Exp {
+    None,
+    Err,
+    ErrOrNone,
+    Some(i64, Tr),
+}
+struct Ref {
+    cmd: Command,
+    followed: Option<Command>,
+    rec: Option<Rec>,
+    err: bool,
+    err_open: bool,
+}
+impl Ref {
+    fn set(&mut self, c: Command) {
+        if c != self.cmd {
+            if self.err {
+                // the property leaves open what get() returns between an error and the next
+                // present sample when a different command is set in between
+                self.err_open = true;
+            }
+            self.rec = None;
+            self.cmd = c;
+        }
+    }
+    fn pre_update(&mut self) {
+        if let Some(f) = self.followed {
+            self.set(f);
+        }
+    }
+    fn sample(&mut self, t: i64, s: (f32, f32, f32)) {
+        self.err = false;
+        self.err_open = false;
+        let (kp, ki, kd) = gains(self.cmd);
+        let k = |e: Tr, i: Tr, d: Tr| Tr::exact(kp).mul(e).add(Tr::exact(ki).mul(i)).add(Tr::exact(kd).mul(d));
+        let e = Tr::exact(f32::from(self.cmd)).sub(Tr::exact(comp(self.cmd, s)));
+        let two = Tr::exact(2.0);
+        self.rec = Some(match self.rec {
+            None => Rec { t, u: k(e, Tr::exact(0.0), Tr::exact(0.0)), e, u1: None },
+            Some(r) => {
+                let dt = secs(t - r.t);
+                let d = e.sub(r.e).div(dt);
+                let iadd = r.e.add(e).div(two).mul(dt);
+                match r.u1 {
+                    None => {
+                        let u = k(e, iadd, d);
+                        let uint = r.u.add(u).div(two).mul(dt);
+                        Rec { t, u, e, u1: Some((uint, iadd, None)) }
+                    }
+                    Some((uint, eint, uu)) => {
+                        let i = eint.add(iadd);
+                        let u = k(e, i, d);
+                        let uint2 = uint.add(r.u.add(u).div(two).mul(dt));
+                        let uuadd = uint.add(uint2).div(two).mul(dt);
+                        let uu2 = match uu {
+                            None => uuadd,
+                            Some(x) => x.add(uuadd),
+                        };
+                        Rec { t, u, e, u1: Some((uint2, i, Some(uu2))) }
+                    }
+                }
+            }
+        });
+    }
+    fn expect(&self) -> Exp {
+        if self.err {
+            return if self.err_open { Exp::ErrOrNone } else { Exp::Err };
+        }
+        match self.rec {
+            None => Exp::None,
+            Some(r) => match self.cmd {
+                Command::Position(_) => Exp::Some(r.t, r.u),
+                Command::Velocity(_) => match r.u1 {
+                    Some((ui, _, _)) => Exp::Some(r.t, ui),
+                    None => Exp::None,
+                },
+                Command::Acceleration(_) => match r.u1 {
+                    Some((_, _, Some(uu))) => Exp::Some(r.t, uu),
+                    _ => Exp::None,
+                },
+            },
+        }
+    }
+}
+
+/// Run a history on the real CommandPID; per event (update result or 0 for set/follow, get).
+fn run_real(init: Command, follow: bool, h: &[Ev], t0: i64) -> Vec<(u32, Obs)> {
+    let inp = rc(Scr::<State>::new(Ok(None)));
+    let cmdg = rc(Scr::<Command>::new(Ok(Some(Datum::new(Time(0), init)))));
+    let mut pid = CommandPID::new(rf(&inp), init, kvals());
+    if follow {
+        pid.follow(dyn_getter(&cmdg));
+    }
+    let mut t = t0;
+    let mut out = Vec::with_capacity(h.len());
+    for e in h {
+        let u = match e {
+            Ev::P(d, i) => {
+                t += d;
+                let s = STATES[*i];
+                inp.borrow_mut().next = Ok(Some(Datum::new(Time(t), State::new_raw(s.0, s.1, s.2))));
+                obs_unit(&pid.update())
+            }
+            Ev::N(d) => {
+                t += d;
+                inp.borrow_mut().next = Ok(None);
+                obs_unit(&pid.update())
+            }
+            Ev::Er(d) => {
+                t += d;
+                inp.borrow_mut().next = Err(E1);
+                obs_unit(&pid.update())
+            }
+            Ev::Set(i) => obs_unit(&pid.set(TARGETS[*i])),
+            Ev::Follow(i) => {
+                cmdg.borrow_mut().next = Ok(Some(Datum::new(Time(t), TARGETS[*i])));
+                0
+            }
+        };
+        out.push((u, obs(&pid.get())));
+    }
+    out
+}
+
+pub fn check_history(init: Command, follow: bool, h: &[Ev], e: &mut Eng, meta: bool) -> u64 {
+    let n = h.len();
+    let t0 = 5 * S;
+    let mut applied = n as u64;
+    let main = match guard(|| run_real(init, follow, h, t0)) {
+        Ok(m) => m,
+        Err(m) => {
+            e.violation("cpid:panic", n, || format!("initial {:?} follow={} history [{}] panicked: {}", init, follow, show(h), m));
+            return applied;
+        }
+    };
+    e.outcome(h64(&(f32::from(init).to_bits(), follow, &main)));
+    let mut r = Ref { cmd: init, followed: if follow { Some(init) } else { None }, rec: None, err: false, err_open: false };
+    let mut t = t0;
+    let mut samples_since_reset = 0;
+    let mut nontrivial = false;
+    let (mut n_exact, mut n_tol) = (0i128, 0i128);
+    for (k, ev) in h.iter().enumerate() {
+        e.checks += 1;
+        let mut exp_u: Option<u32> = Some(0);
+        match ev {
+            Ev::P(d, i) => {
+                t += d;
+                r.pre_update();
+                if r.rec.is_none() {
+                    samples_since_reset = 0;
+                }
+                r.sample(t, STATES[*i]);
+                samples_since_reset += 1;
+                if samples_since_reset >= 3 {
+                    nontrivial = true;
+                }
+            }
+            Ev::N(d) => {
+                t += d;
+                r.pre_update();
+                r.rec = None;
+                r.err = false;
+                r.err_open = false;
+            }
+            Ev::Er(d) => {
+                t += d;
+                r.pre_update();
+                r.rec = None;
+                r.err = true;
+                r.err_open = false;
+                exp_u = Some(3);
+            }
+            Ev::Set(i) => r.set(TARGETS[*i]),
+            Ev::Follow(i) => {
+                if follow {
+                    r.followed = Some(TARGETS[*i]);
+                }
+                exp_u = None;
+            }
+        }
+        let (u, got) = main[k];
+        let exp = r.expect();
+        let ok_u = exp_u.map(|x| x == u).unwrap_or(true);
+        let ok_g = match exp {
+            Exp::None => got.is_none(),
+            Exp::Err => got == Obs::err(&E1),
+            Exp::ErrOrNone => got.is_none() || got == Obs::err(&E1),
+            Exp::Some(tt, v) => {
+                if v.robust {
+                    n_exact += 1;
+                } else {
+                    n_tol += 1;
+                }
+                got.is_some() && got.time == tt && v.agrees(got.f(0), 8.0)
+            }
+        };
+        if !(ok_u && ok_g) {
+            let cls = match (exp, ok_u) {
+                (_, false) => "update-result",
+                (Exp::None, _) => "should-be-absent",
+                (Exp::Err, _) | (Exp::ErrOrNone, _) => "should-report-error",
+                (Exp::Some(..), _) => {
+                    if got.is_some() {
+                        "value"
+                    } else {
+                        "should-be-present"
+                    }
+                }
+            };
+            e.violation(&format!("cpid:{}", cls), k + 1, || {
+                format!(
+                    "initial {:?} follow={} history [{}]: after event {} update/set returned {} and get() = {} but the staged PID reference (command now {:?}) expects {}",
+                    init,
+                    follow,
+                    show(&h[..=k]),
+                    k,
+                    u,
+                    got.show(),
+                    r.cmd,
+                    match exp {
+                        Exp::None => "absent".to_string(),
+                        Exp::Err => "Err(E1)".to_string(),
+                        Exp::ErrOrNone => "Err(E1) or absent".to_string(),
+                        Exp::Some(tt, v) => format!("{} at time {}", v.show(), tt),
+                    }
+                )
+            });
+            break;
+        }
+    }
+    if nontrivial {
+        e.nontrivial += 1;
+    }
+    e.count("bit_exact_reference_checks", n_exact);
+    e.count("tolerance_reference_checks", n_tol);
+    if meta {
+        for shift in [-1_000_000_000_000_000i64, 100_000_000_000_000_000] {
+            if let Ok(sh) = guard(|| run_real(init, follow, h, t0 + shift)) {
+                applied += n as u64;
+                for k in 0..n {
+                    let (a, b) = (main[k], sh[k]);
+                    let same = a.0 == b.0 && a.1.tag == b.1.tag && a.1.bits == b.1.bits && (a.1.tag != 1 || a.1.time + shift == b.1.time);
+                    if !same {
+                        e.violation("cpid:shift-variance", k + 1, || format!("history [{}]: timestamps shifted by {}: event {} gives {} instead of {}", show(&h[..=k]), shift, k, b.1.show(), a.1.show()));
+                        break;
+                    }
+                }
+            }
+        }
+    }
+    applied
+}
+
+fn syms(follow: bool) -> Vec<Ev> {
+    let mut v = vec![Ev::P(S / 2, 0), Ev::P(S / 2, 1), Ev::P(2 * S, 0), Ev::P(2 * S, 1), Ev::N(S), Ev::Er(S)];
+    for i in 0..6 {
+        v.push(Ev::Set(i));
+    }
+    if follow {
+        for i in 0..6 {
+            v.push(Ev::Follow(i));
+        }
+    }
+    v
+}
+
+pub fn run(ctx: &Ctx) -> Vec<Eng> {
+    let budget = Budget::secs(if ctx.thorough { 2000 } else { 120 });
+    let inits = [TARGETS[0], TARGETS[2], TARGETS[4]];
+    let depth = if ctx.thorough { 7 } else { 6 };
+    let s0 = syms(false);
+    let mut e1 = Eng::new(
+        "c11-seqs-set",
+        "all histories of exactly `depth` events over {P(dt,state): dt in {0.5,2}s x 2 dyadic states, N, E1, set(c) for 6 commands (2 values x 3 kinds; equal to the current one or not)} x 3 initial command kinds, gains distinct per kind; after every event get() must equal the staged reference (PID law on the error of the commanded component; output / its trapezoid integral / its double integral by kind; absent for the first 0/1/2 samples after a start or reset; set(same) changes nothing; set(different) => absent and restart; N resets; E reported until the next present sample which starts afresh), bit-exact; shift invariance; non-trivial = three or more samples since the last reset",
+        &format!("depth {} => 12^{} histories x 3 initial kinds", depth, depth),
+    );
+    for init in inits {
+        par_seqs(&mut e1, s0.len(), depth, budget, |seq, e| {
+            let h: Vec<Ev> = seq.iter().map(|&s| s0[s]).collect();
+            let a = check_history(init, false, &h, e, true);
+            e.sample(|| format!("init {:?} [{}]", init, show(&h)));
+            a
+        });
+    }
+    let fdepth = if ctx.thorough { 6 } else { 5 };
+    let s1 = syms(true);
+    let mut e2 = Eng::new(
+        "c11-seqs-follow",
+        "same with the controller following a scripted command getter: alphabet extended by 'followed command changes to c' (6 commands); the change arrives through update_following_data at the next update",
+        &format!("depth {} => 18^{} histories x 3 initial kinds", fdepth, fdepth),
+    );
+    for init in inits {
+        par_seqs(&mut e2, s1.len(), fdepth, budget, |seq, e| {
+            let h: Vec<Ev> = seq.iter().map(|&s| s1[s]).collect();
+            let a = check_history(init, true, &h, e, false);
+            e.sample(|| format!("init {:?} [{}]", init, show(&h)));
+            a
+        });
+    }
+    let (hz, k) = if ctx.thorough { (48, 3) } else { (24, 2) };
+    let mut e3 = Eng::new(
+        "c11-deviations",
+        "all histories of exactly H events differing from the default stream P(0.5 s, alternating states) in at most k positions, deviations {N, E1, P(2 s), set(c) x 6}; 3 initial kinds (exercises long accumulation of the single and double integrals)",
+        &format!("H={} k={}", hz, k),
+    );
+    let cases = deviation_cases(hz, 9, k);
+    for init in inits {
+        par_cases(&mut e3, &cases, budget, |c, e| {
+            let mut h: Vec<Ev> = (0..hz).map(|i| Ev::P(S / 2, i % 2)).collect();
+            for &(p, a) in c {
+                h[p as usize] = match a {
+                    0 => Ev::N(S),
+                    1 => Ev::Er(S),
+                    2 => Ev::P(2 * S, (p as usize + 1) % 2),
+                    x => Ev::Set(x as usize - 3),
+                };
+            }
+            e.executions += 1;
+            e.states += 1;
+            e.max_depth = e.max_depth.max(hz as u64);
+            e.transitions += check_history(init, false, &h, e, c.len() < 2);
+            if c.len() == k {
+                e.sample(|| format!("init {:?} [{}]", init, show(&h)));
+            }
+        });
+    }
+    vec![e1, e2, e3]
 }
